@@ -265,7 +265,7 @@ func cmdCheck(args []string) int {
 		}
 		fmt.Printf("VIOLATION property=%s replay=%s obligation=%s status=%s %s%s\n", *prop, rep.Path, o.Name, o.Status, o.Pos, suffix)
 		if *verbose {
-			fmt.Printf("    goal: %s\n    %s\n", o.Src, strings.SplitN(o.Output, "\n", 2)[0])
+			fmt.Printf("    goal: %s\n    %s\n", truncate(o.Src, 1500), strings.SplitN(o.Output, "\n", 2)[0])
 			for _, pc := range o.Params {
 				if v, ok := o.Model[pc.Const]; ok {
 					fmt.Printf("    %s = %s\n", pc.Name, v)
